@@ -118,14 +118,14 @@ def documented(chars):
         if z3.is_false(sh):
             continue
         n_ = z3.IntVal(1) if n is None else n
-        v = z3.And(sh, y >= 1000, valid_number(ind, y, n_))
+        v = z3.And(sh, valid_number(ind, y, n_))
         shapes.append(sh)
         valids.append(v)
         den.append((v, y, ind, n_, name))
     if len(chars) == 10:      # YYYY-MM-DD
         sh = AND(digits(chars[0:4]), chars[4] == 45, digits(chars[5:7]), chars[7] == 45, digits(chars[8:10]))
         y, m, d = num(chars[0:4]), num(chars[5:7]), num(chars[8:10])
-        v = z3.And(sh, y >= 1000, m >= 1, m <= 12, d >= 1, d <= cal.dim(y, m))
+        v = z3.And(sh, m >= 1, m <= 12, d >= 1, d <= cal.dim(y, m))
         shapes.append(sh)
         valids.append(v)
         den.append((v, y, "D", cal._days_from_civil(y, m, d) - cal._days_from_civil(y, z3.IntVal(1), z3.IntVal(1)) + 1, "YYYY-MM-DD"))
